@@ -10,6 +10,7 @@ package environment
 //@   ensures @C06 islocal.found: ok == (scopeOf(e, name, len(e.local)) >= 0)
 //@   ensures @C06 islocal.value: ok ==> o === e.local[scopeOf(e, name, len(e.local))][name]
 //@   ensures @C06 islocal.none:  !ok ==> o == nil
+//@   ensures islocal.good: ok ==> validObj(o)
 //@   panics never
 //@ loop 1 invariant 0 <= ln && ln <= len(e.local) && scopeOf(e, name, len(e.local)) == scopeOf(e, name, ln)
 //@ loop 1 decreases ln
@@ -17,6 +18,7 @@ package environment
 //@ func (e *Environment) Get(name string) (o object.Object, ok bool)
 //@   modifies nothing
 //@   ensures @C06 get.local:  scopeOf(e, name, len(e.local)) >= 0 ==> ok && o === e.local[scopeOf(e, name, len(e.local))][name]
+//@   ensures get.good: ok ==> validObj(o)
 //@   ensures @C06 get.global: scopeOf(e, name, len(e.local)) < 0 ==> ok == has(e.global, name) && (ok ==> o === e.global[name]) && (!ok ==> o == nil)
 //@   panics never
 
@@ -43,4 +45,30 @@ package environment
 //@   modifies e.functions[*]
 //@   ensures @C20 setfunction.def: has(e.functions, name) && e.functions[name] === fun && result === fun
 //@   ensures @C20 setfunction.keep: forall k string :: k != name ==> has(e.functions, k) == old(has(e.functions, k)) && e.functions[k] === old(e.functions[k])
+//@   panics never
+
+// SetLocal as it is used by Set: update the innermost scope that binds the name, or bind it in the
+// innermost scope.  (What the language requires of a *declaration* - bind in the innermost scope
+// whatever the outer ones hold - is stated where declarations execute: the OpLocal, OpCall and
+// OpIterationNext steps of vm.Run.)
+//@ func (e *Environment) SetLocal(name string, val object.Object) (result object.Object)
+//@   requires validObj(val) && scopesOK(e)
+//@   modifies e.local[*][*]
+//@   ensures @C06 setlocal.result: result === val
+//@   ensures @C06 @pinned setlocal.bound: len(e.local) > 0 && old(scopeOf(e, name, len(e.local))) >= 0
+//@            ==> mapUpdated(e.local[old(scopeOf(e, name, len(e.local)))], name, val) && forall i in 0..len(e.local) :: i != old(scopeOf(e, name, len(e.local))) ==> mapUnchanged(e.local[i])
+//@   ensures @C06 setlocal.unbound: len(e.local) > 0 && old(scopeOf(e, name, len(e.local))) < 0
+//@            ==> mapUpdated(e.local[len(e.local) - 1], name, val) && forall i in 0..len(e.local) - 1 :: mapUnchanged(e.local[i])
+//@   panics never
+//@ loop 1 invariant 0 <= ln && ln <= len(e.local) && len(e.local) > 0 && scopeOf(e, name, len(e.local)) == scopeOf(e, name, ln)
+//@ loop 1 decreases ln
+
+//@ func (e *Environment) Set(name string, val object.Object) (result object.Object)
+//@   requires validObj(val) && scopesOK(e) && e.global != nil
+//@   modifies e.local[*][*], e.global[*]
+//@   ensures @C06 set.result: result === val
+//@   ensures @C06 set.local: old(scopeOf(e, name, len(e.local))) >= 0
+//@            ==> mapUpdated(e.local[old(scopeOf(e, name, len(e.local)))], name, val) && mapUnchanged(e.global) && forall i in 0..len(e.local) :: i != old(scopeOf(e, name, len(e.local))) ==> mapUnchanged(e.local[i])
+//@   ensures @C06 set.global: old(scopeOf(e, name, len(e.local))) < 0
+//@            ==> mapUpdated(e.global, name, val) && forall i in 0..len(e.local) :: mapUnchanged(e.local[i])
 //@   panics never
